@@ -275,6 +275,48 @@ func C20(c *fw.Ctx) {
 		}
 	}
 	c.R.Traces = c.R.States
+	// a line of any length gets its response and the session goes on: a valid, a syntactically wrong and a
+	// failing line stretched by blanks to every power of two from 2^12 to 2^17 (+-1), followed by a probe
+	{
+		probe := model.BiLen + "([1, 2]);"
+		for k := 12; k <= 17; k++ {
+			for d := -1; d <= 1; d++ {
+				for variant := 0; variant < 3; variant++ {
+					if !c.Mine() {
+						continue
+					}
+					pad := strings.Repeat(" ", 1<<uint(k)+d)
+					line := model.KwPrint + " 1;" + pad + model.KwPrint + " 2;"
+					want := "1\n2\n"
+					switch variant {
+					case 1:
+						line = model.KwPrint + " 1;" + pad + model.KwPrint + " ;"
+						want = ""
+					case 2:
+						line = model.KwPrint + " 1;" + pad + "zz;"
+						want = "1\n"
+					}
+					session := line + "\n" + probe + "\n"
+					o := h.RunRepl(session, h.Opts{Fuel: int64(3_000_000 + 100*len(session))})
+					c.Eval(session, true)
+					c.R.States++
+					c.R.Transitions++
+					base := fw.Replay{Mode: "repl", Program: trunc(session, 300), CLI: true, InStdout: trunc(o.Stdout, 300), InStderr: trunc(o.Stderr, 300), InStatus: o.Status}
+					if abnormal(c, o, "repl", trunc(session, 200), base) {
+						continue
+					}
+					if o.Stdout != ">> "+want+">> 2\n>> " || o.Status != 0 || (variant == 0) != (o.Stderr == "") {
+						r := base
+						r.Sig = fmt.Sprintf("C20|long-line|variant%d", variant)
+						r.What = fmt.Sprintf("a line of about 2^%d characters must get its own response and the next line must be answered", k)
+						r.Expected = fmt.Sprintf("stdout %q status 0", ">> "+want+">> 2\n>> ")
+						r.Observed = fmt.Sprintf("stdout %q status %d stderr %q", trunc(o.Stdout, 100), o.Status, trunc(o.Stderr, 150))
+						c.Violate(r)
+					}
+				}
+			}
+		}
+	}
 	// whatever a line does, the session goes on: every built-in on every argument list of length 0 and 1
 	// over the operand alphabet (plus emptied and one-element containers), as a line of its own followed
 	// by a line of literals and built-ins, which must be answered as in a fresh session
